@@ -1,4 +1,4 @@
-SOURCE_COMMITS = ['c5d9560']
+SOURCE_COMMITS = ['c5d9560', '265a34c', '1141073', '47656a5', '5687be7']
 
 TB = ('Trusted: rustc MIR construction, std, and the pinned dependencies (Cargo.lock digest recorded in evidence); '
       'virtual calls dispatch to local impls; no unsafe code (checked on every run). ')
@@ -8,6 +8,26 @@ CHECKS = [
   'technique': 'MIR loop-domain/affine bound analysis + edge-fact dataflow + path counting',
   'text': 'Path-/site-exhaustive static decision of the structural clauses of C02 (inclusive upper bound = index max_height, min(end,tip) clamp polarity, trim keeps [start-1,max], exactly one on_block per iteration with (fetched block, loop variable), cur_height bookkeeping, file-name operands, no cross-block state in per-block outputs). Holds for every chain length and every (s,e) because the clauses are facts about operators, aggregates and paths, not about a run.',
   'note': TB + 'Does not decide LevelDB iteration or that Range iteration is ascending (std).'},
+ {'id': 'C05', 'design_ref': 'DESIGN.md §3 C05',
+  'technique': 'MIR guard-set extraction per return site (must-hold edge facts) + provenance tables',
+  'text': 'Site-exhaustive static decision of the classification cascade: every return site of the Bitcoin evaluator is extracted with the set of library predicates known true/false there; the (predicate -> type) pairs, the precedences required where predicates overlap, the version-id -> network dispatch and the provenance of every reported address are compared with the reference table. Holds for every byte string because the cascade is a finite decision structure over opaque predicates.',
+  'note': TB + 'rust-bitcoin predicates/encoders are the trusted base: that they implement the reference rules is not decided.'},
+ {'id': 'C06', 'design_ref': 'DESIGN.md §3 C06',
+  'technique': 'MIR affine cursor analysis + finite table/arm checks + builder-sequence extraction',
+  'text': 'Static decision of the tokenizer arms, the instruction-pointer arithmetic relative to the opcode position (operand at ip0+1, data at ip0+1+w), EOF guards, NOP skipping, the five templates as evaluated opcode constants, address construction (Base58Check piece sequence, version byte provenance) and the per-coin version table, plus the flow of the version byte from the coin table to the evaluator. An off-by-one in cursor arithmetic is a fact about constants in the MIR, valid for all scripts.',
+  'note': TB + 'bitcoin::opcodes classification, hash160/sha256d/base58 trusted. C06.le is an idiom match on read_uint.'},
+ {'id': 'C10', 'design_ref': 'DESIGN.md §3 C10',
+  'technique': 'typestate dataflow over MIR CFG (writer dirty/clean) + who-may-call + dropped-Result analysis',
+  'text': 'All-paths typestate: at every fs::rename and Ok-return of every file-producing on_complete each buffering writer is flushed with a checked result after its last write; files are created only as <dump>/<x>.tmp in callback constructors and the rename sources equal the created set; no Result in the crate is dropped; the Err edge of the block fetch reaches only process::exit(non-zero) and never on_complete; main exits non-zero on every Err. These quantify over every fault point because they are path properties of the CFG.',
+  'note': TB + 'rename(2) atomicity and BufWriter semantics trusted; SIGKILL timing/kernel durability not decided.'},
+ {'id': 'C15', 'design_ref': 'DESIGN.md §3 C15',
+  'technique': 'canonical provenance of every store/reduction/printed placeholder in MIR + type-width check',
+  'text': 'Every accumulator store of the simplestats callback is extracted with its canonical provenance expression, loop depth and guard set and compared with the definition of the figure it feeds; reduction accumulators are at least 64 bit; maxima are strict; fee is coinbase-guarded and floored; every printed placeholder reads the accumulator its label names. Width and polarity facts hold for every chain.',
+  'note': TB + 'Float formatting and numeric equality of the printed means are not decided.'},
+ {'id': 'C16', 'design_ref': 'DESIGN.md §3 C16',
+  'technique': 'MIR provenance analysis of the payload string + guard-set/format-template check of the print site',
+  'text': 'The OP_RETURN payload on the Bitcoin path must derive from the decoded push instruction after OP_RETURN (never from a fixed byte offset, which cannot be right for all four push encodings), through strict UTF-8 with empty default; the fork path uses the Data token of the template; the single println is guarded exactly by is-OpReturn and non-empty and prints height, txid and the payload verbatim inside forward loops.',
+  'note': TB + 'UTF-8 decoding in std and rust-bitcoin instruction decoding trusted.'},
 ]
 
 NOT_APPLICABLE = []
